@@ -466,8 +466,10 @@ def c18(tier):
             text = f"pub mod user {{ {mod_use}\n" + items_q[j].text + "\n}"
             chk.add_violation(f"[no_import] {text}", "regime_no_import", f"does not compile in a module that does not import arbitrary_int::*: {items_q[j].text} :: {errs[j][0]}",
                               decl_replay(text, "accept", prelude=prelude_q, flags=["--cap-lints", "forbid"]))
-    if unatt:
-        raise B.MachineryError(f"C18 no_import regime: unattributed diagnostics: {unatt[:3]}")
+    for u in unatt[:5]:
+        # errors in the shared type prelude (enums / nested bitfields at the crate root) are verdicts too, as in the other regimes
+        chk.add_violation(f"[no_import] prelude: {u[:200]}", "regime_no_import", f"generated code for the documented enum/nested types does not compile under #![no_std]: {u}",
+                          decl_replay(types_txt, "accept", prelude="#![no_std]\n" + base_prelude, flags=["--cap-lints", "forbid"]))
     chk.per_family["regime:no_import"] = {"fields": sum(len(sq.fields) for sq in structs_q), "transitions": len(items_q), "states": len(items_q), "violations": len(errs)}
     # expansion scan
     exp_dir = os.path.join(B.WORK, "declmc", "c18-expanded")
